@@ -263,7 +263,9 @@ class CharAllowed:
             return r
         if isinstance(e, ast.Call) and isinstance(e.func, ast.Name) and e.func.id in ("any", "all") and len(e.args) == 1 \
                 and isinstance(e.args[0], (ast.GeneratorExp, ast.ListComp)) and len(e.args[0].generators) == 1 \
-                and isinstance(e.args[0].generators[0].target, ast.Name):
+                and (isinstance(e.args[0].generators[0].target, ast.Name)
+                     or (isinstance(e.args[0].generators[0].target, ast.Tuple)
+                         and all(isinstance(x, ast.Name) for x in e.args[0].generators[0].target.elts))):
             # any(<cond over r> for r in TABLE): unrolled over a literal table (a display, a class attribute of the
             # grammar's MRO, a module constant)
             g = e.args[0]
@@ -274,10 +276,17 @@ class CharAllowed:
             from .inline import _Sub, clone
             r = ISet() if e.func.id == "any" else ISet.all()
             for item in table:
-                body = _Sub({gen.target.id: item}).visit(clone(g.elt))
+                if isinstance(gen.target, ast.Name):
+                    binding = {gen.target.id: item}
+                else:
+                    # for low, high in TABLE: each row is a display of as many elements
+                    if not (isinstance(item, (ast.Tuple, ast.List)) and len(item.elts) == len(gen.target.elts)):
+                        raise Unsupported(norm(e))
+                    binding = {t_.id: x_ for t_, x_ in zip(gen.target.elts, item.elts)}
+                body = _Sub(binding).visit(clone(g.elt))
                 c = self.cond(body, env, defcls)
                 for test in gen.ifs:
-                    t_ = self.cond(_Sub({gen.target.id: item}).visit(clone(test)), env, defcls)
+                    t_ = self.cond(_Sub(binding).visit(clone(test)), env, defcls)
                     c = (c & t_) if e.func.id == "any" else (c | ~t_)
                 r = (r | c) if e.func.id == "any" else (r & c)
             return r
